@@ -172,6 +172,8 @@ class ContractTable:
             if isinstance(key, tuple) and key[0] == "den":
                 self._link_den(I, o, d, key[1])
         o.ghost.setdefault("on_den", []).append(lambda I2, pt, d: self._link_den(I2, o, d, spec.point_name(I2, pt), pt))
+        for h in o.ghost.pop("on_refine", []):
+            h(I)
 
     def _link_den(self, I, o, d, ptname, pt=None):
         if pt is None:
